@@ -581,7 +581,7 @@ func (e *Enc) typeInv(v Term, t types.Type, now Term) Term {
 	case *types.Pointer:
 		// objects of different struct types are different objects
 		if _, isStruct := u.Elem().Underlying().(*types.Struct); isStruct {
-			return And(Lt(Birth(v), now), Or(Eq(v, IntLit(0)), Eq(App(SInt, "tyof", v), IntLit(int64(e.p.TypeID(u.Elem()))))))
+			return And(Lt(Birth(v), now), Or(Eq(v, IntLit(0)), And(Ge(Birth(v), IntLit(0)), Eq(App(SInt, "tyof", v), IntLit(int64(e.p.TypeID(u.Elem())))))))
 		}
 		return Lt(Birth(v), now)
 	case *types.Map, *types.Chan, *types.Signature, *types.Interface:
